@@ -1,8 +1,9 @@
 From Coq Require Import Extraction ExtrOcamlBasic.
 From Common Require Import Conv.
-From C13 Require Import Model ModelDict ModelTables.
+From C13 Require Import Model ModelDict ModelTables ModelLayout.
 Extraction "c13_model.ml" conv_anchor lenN dropN
   M_index_encode M_index_header M_index_read_fast
   M_dict_int_encode M_offs_size dict_token M_dict_decode_top M_real_layout
   M_charset_encode M_charset_read M_predefined_charset
-  M_encoding_encode M_encoding_read M_fdselect_encode M_fdselect_read.
+  M_encoding_encode M_encoding_read M_fdselect_encode M_fdselect_read
+  M_layout hdr_offsize M_width_encode M_width_decode M_width_roundtrip M_width_roundtrip_old.
